@@ -1,4 +1,5 @@
 import Falcon.Model.FftFlt
+import Falcon.Gen.Params
 
 /-
   Model of ffsampling.rs: `ldl`, `ffldl` (the Falcon tree) and `ffsampling` (Algorithm 11, fast-Fourier nearest
@@ -67,5 +68,70 @@ def ffsampling (o : FOps α) (T TI : Nat → α) : Tree α → List α → List 
     let (b0a, b0b) := split o TI t0'
     let (z0a, z0b, s2) := ffsampling o T TI left b0a b0b s1
     (merge o T z0a z0b, z1, s2)
+
+/-- the leaf inputs in the order they are sampled (right subtree first): what `sampler_z` receives as centres -/
+def targets (o : FOps α) (T TI : Nat → α) : Tree α → List α → List α → List α → List α
+  | .leaf _, t0, t1, _ => [t0.headD o.zero, t1.headD o.zero]
+  | .branch l left right, t0, t1, s =>
+    let (b1a, b1b) := split o TI t1
+    let r1 := ffsampling o T TI right b1a b1b s
+    let z1 := merge o T r1.1 r1.2.1
+    let t0' := List.zipWith o.add t0 (List.zipWith o.mul (List.zipWith o.sub t1 z1) l)
+    let (b0a, b0b) := split o TI t0'
+    targets o T TI right b1a b1b s ++ targets o T TI left b0a b0b r1.2.2
+
+/-- the leaf vectors, left to right -/
+def leaves : Tree α → List (List α)
+  | .leaf v => [v]
+  | .branch _ l r => leaves l ++ leaves r
+
+/-! ### instance: Complex64 as pairs of doubles (operations transcribed from num-complex 0.4) -/
+
+/-- `Complex64::new(1.0, 0.0) / c` -/
+def cinv (c : C) : C :=
+  let nrm := c.1 * c.1 + c.2 * c.2
+  ((1.0 * c.1 + 0.0 * c.2) / nrm, (0.0 * c.1 - 1.0 * c.2) / nrm)
+
+/-- `hadamard_div`: a · (1/b) -/
+def cdiv (a b : C) : C := cmul a (cinv b)
+def cconj (c : C) : C := (c.1, -c.2)
+def cneg (c : C) : C := (-c.1, -c.2)
+
+def cfops : FOps C := ⟨cadd, csub, cmul, cdiv, cconj, twoInv, (0.0, 0.0)⟩
+
+def ofInts (p : List Int) : List C := p.map fun x => (Float.ofInt x, 0.0)
+
+/-- `gram(b)` for b = [b00, b01, b10, b11] in the transform domain: g[i][j] = b[i][0]·conj(b[j][0]) + b[i][1]·conj(b[j][1]) -/
+def gramOf (b : List (List C)) : Gram C :=
+  let e (i j : Nat) : List C :=
+    List.zipWith cadd (List.zipWith cmul (b.getD (2 * i) []) ((b.getD (2 * j) []).map cconj))
+      (List.zipWith cmul (b.getD (2 * i + 1) []) ((b.getD (2 * j + 1) []).map cconj))
+  ⟨e 0 0, e 0 1, e 1 0, e 1 1⟩
+
+/-- the tree `SecretKey::from_b0` builds (before normalisation) from the four rows of b0 = [g, −f, G, −F] -/
+def treeOfB0 (b0 : List (List Int)) : Tree C :=
+  let bf := b0.map fun p => fft (ofInts p)
+  let n := (b0.getD 0 []).length
+  ffldl cfops TI (log2 n - 1) (gramOf bf)
+
+/-- `normalize_tree`: σ / sqrt(leaf[0].re) -/
+def normalizedLeaves (sigma : Float) (t : Tree C) : List Float :=
+  (leaves t).map fun v => sigma / Float.sqrt (v.headD (0.0, 0.0)).1
+
+def sigmaOf (n : Nat) : Float :=
+  Float.ofBits (if n = 512 then Gen.sigmaBits512 else Gen.sigmaBits1024).toUInt64
+
+/-- the target (t0, t1) of `sign` for the hashed point c: t0 = (c/q)·FFT(F), t1 = −(c/q)·FFT(f), with F = −b0[3], f = −b0[1] -/
+def signTarget (b0 : List (List Int)) (c : List Nat) : List C × List C :=
+  let oneOverQ : Float := 1.0 / 12289.0
+  let cq := fft (c.map fun x => (oneOverQ * Float.ofNat x, 0.0))
+  let capF := fft (ofInts ((b0.getD 3 []).map (- ·)))
+  let f := fft (ofInts ((b0.getD 1 []).map (- ·)))
+  (List.zipWith cmul cq capF, (List.zipWith cmul cq f).map cneg)
+
+/-- the centres of all leaf samples of one `ffsampling` call, given the integers the sampler returned -/
+def signLeafTargets (b0 : List (List Int)) (c : List Nat) (z : List Int) : List Float :=
+  let (t0, t1) := signTarget b0 c
+  (targets cfops T TI (treeOfB0 b0) t0 t1 (ofInts z)).map (·.1)
 
 end Falcon.FfS
